@@ -8,6 +8,7 @@
 from __future__ import annotations
 import os, sys, json, time, types, hashlib, subprocess, random, io, contextlib, signal
 from fractions import Fraction
+sys.set_int_max_str_digits(0)
 
 VERIF = os.path.dirname(os.path.dirname(os.path.abspath(__file__)))
 REPO = "/repo"
